@@ -370,7 +370,7 @@ class Server(Acceptor):
         try:
             self.ixes[ca].serviceReceives()
         except OSError as ex:
-            logger.error("Closing incoming socket on %s.\n%s\n", ix.cs.getpeername(), ex)
+            logger.error("Closing incoming socket on %s.\n%s\n", ca, ex)
             self.removeIx(ca=ca)  # also closes ix
 
 
@@ -382,7 +382,7 @@ class Server(Acceptor):
             try:
                 ix.serviceReceives()
             except OSError as ex:
-                logger.error("Closing incoming socket on %s.\n%s\n", ix.cs.getpeername(), ex)
+                logger.error("Closing incoming socket on %s.\n%s\n", ca, ex)
                 self.removeIx(ca=ca)  # also closes ix
 
 
@@ -734,7 +734,7 @@ class Remoter(tyming.Tymee):
                 self.cutoff = True  # this signals need to close/reopen connection
                 return bytes()  # data empty
             else:  # unexpected error
-                logger.error("Unexpected error on receive on %s.\n%s\n", self.cs.getpeername(), ex)
+                logger.error("Unexpected error on receive on %s.\n%s\n", self.ca, ex)
                 raise  # re-raise
 
         if data:  # connection open
@@ -981,12 +981,12 @@ class RemoterTls(Remoter):
                 self.cutoff = True  # this signals need to close/reopen connection
                 return bytes()  # data empty
             else:
-                logger.error("Unexpected error on receive on %s.\n%s\n", self.cs.getpeername(), ex)
+                logger.error("Unexpected error on receive on %s.\n%s\n", self.ca, ex)
                 raise  # re-raise
 
         if data:  # connection open
             if self.wl:  # log over the wire rx
-                self.wl.writeRx(data, who=self.cs.getpeername())
+                self.wl.writeRx(data, who=self.ca)
 
         else:  # data empty so connection closed on other end
             self.cutoff = True
@@ -1024,7 +1024,7 @@ class RemoterTls(Remoter):
 
         if result:
             if self.wl:
-                self.wl.writeTx(data[:result], who=self.cs.getpeername())
+                self.wl.writeTx(data[:result], who=self.ca)
 
         return result
 
